@@ -128,8 +128,7 @@ func (t SSE) Do(w http.ResponseWriter, r *http.Request, exec graphql.GraphExecut
 		}
 	}
 
-	c.write(func() { fmt.Fprint(w, "event: complete\n\n") })
-	c.close()
+	c.complete(w)
 }
 
 // write runs f, which writes one complete event, and flushes it, holding the
@@ -145,13 +144,17 @@ func (c *sseConnection) write(f func()) {
 	c.f.Flush()
 }
 
-// close marks the stream as finished: a keep-alive tick that fires before the
-// request context is cancelled must not write after the complete event (or
-// touch the ResponseWriter after the handler returned).
-func (c *sseConnection) close() {
+// complete writes the complete event and marks the stream as finished in the
+// same critical section: a keep-alive tick that fires before the request
+// context is cancelled must not write after the complete event (or touch the
+// ResponseWriter after the handler returned), not even when it is already
+// waiting for the lock while the complete event is written.
+func (c *sseConnection) complete(w io.Writer) {
 	c.mu.Lock()
+	defer c.mu.Unlock()
+	fmt.Fprint(w, "event: complete\n\n")
+	c.f.Flush()
 	c.closed = true
-	c.mu.Unlock()
 }
 
 func (c *sseConnection) resetTicker(interval time.Duration) {
